@@ -119,9 +119,11 @@ def gen_trace20(rng, tier='quick'):
             n = n['of']
         return n['t'] == 'mv' and bool(mvs[n['id']].get('shape'))
     top_array = any(to_array(n) for n in effective_top(scene))
-    slots = [j for j, n in enumerate(effective_top(scene)) if is_point(n)]
-    draggable_slots = [i for i, j in enumerate(slots)
-                       if mvs[effective_top(scene)[j]['id']].get('dtype') != 'int64']
+    from .c20 import expanded_top
+    etop = expanded_top(scene, mvs)
+    # draggable points by their place in the decoded subjects; int64-backed points are never dragged by the
+    # simulated user (an integer array cannot hold the reported float in place)
+    places = [j for j, n in enumerate(etop) if is_point(n) and mvs[n['id']].get('dtype') != 'int64']
     drags = []
     world = dict(algebra=dict(p=p, q=q, r=r), mvs=mvs, scene=scene, options=options,
                  single_callable=rng.choice([False] * 8 + ['lazy', 'eager']),
@@ -129,15 +131,13 @@ def gen_trace20(rng, tier='quick'):
                  p_dup=rng.choice([0, 0, 0.1, 0.3]), float32=rng.random() < 0.8,
                  rerender_on_change=rng.random() < 0.5, max_reports=rng.choice([10, 25, 40]))
     if top_array:
-        # an array-valued multivector at the top level is expanded in place, so positions in the decoded
-        # subjects differ from positions in the scene (open finding D3 before its repair)
-        world['allow_misaligned'] = True
-    if draggable_slots and rng.random() < 0.8 and (not top_array or DRAG_TOP_ARRAY):
+        world['allow_misaligned'] = True       # (kept as a label: worlds with an expanded top-level subject)
+    if places and rng.random() < 0.8:
         t = 0.05
         for _ in range(rng.randint(1, 7)):
             t += rng.choice([0.001, 0.01, 0.05, 0.2])
-            slot = rng.choice(draggable_slots)
-            mv = mvs[effective_top(scene)[slots[slot]]['id']]
+            place = rng.choice(places)
+            mv = mvs[etop[place]['id']]
             npos = rng.randint(1, 3)
             changes = []
             for _ in range(npos):
@@ -146,7 +146,7 @@ def gen_trace20(rng, tier='quick'):
                 else:
                     pos = rng.randrange(2 ** d)
                 changes.append([pos, gen_value(rng)])
-            drags.append(dict(t=round(t, 4), slot=slot, changes=changes))
+            drags.append(dict(t=round(t, 4), place=place, changes=changes))
         world['horizon'] = t + 0.5
     world['drags'] = drags
     return dict(property='C20', world=world, net_seed=rng.getrandbits(32))
